@@ -293,14 +293,21 @@ impl SlabRouter {
                 self.metadata.delete(key);
                 Ok(())
             },
+            // The existence check above and the removal are separate steps: report
+            // success only to the caller whose removal actually took the entry out,
+            // so that two concurrent deletes of one key cannot both succeed.
             KeyClass::Cache => {
-                self.cache.delete(key);
-                Ok(())
+                if self.cache.delete(key) {
+                    Ok(())
+                } else {
+                    Err(SlabRouterError::NotFound(key.to_string()))
+                }
             },
-            _ => {
-                self.metadata.delete(key);
-                Ok(())
-            },
+            _ => self
+                .metadata
+                .delete(key)
+                .map(|_| ())
+                .ok_or_else(|| SlabRouterError::NotFound(key.to_string())),
         }
     }
 
